@@ -340,6 +340,10 @@ class ODLDecoder(PVLDecoder):
             if match is not None:
                 gd = match.groupdict(default=0)
                 dt = super().decode_datetime(gd["dt"])
+                if not hasattr(dt, "tzinfo"):
+                    # A date (or a leap second string) cannot carry
+                    # a time zone offset.
+                    raise ValueError
                 offset = timedelta(
                     hours=int(gd["hour"]), minutes=int(gd["minute"])
                 )
